@@ -352,6 +352,65 @@ def rule_C1(ctx):
         ctx.analysed(f)
 
 
+def rule_C2(ctx):
+    """One model for all moves: the data-point move considers the outlier set exactly when the SMC kernel proposes
+    it, i.e. both switches are the same test on the run's outlier probability; the proposal probability the kernel
+    gets is a probability.  (With outlier probability 0 the density has no outlier terms: a move that could still
+    place points in the outlier set would target a different posterior than the whole-tree update.)"""
+    from ..formula import extract
+    from ..termflow import Poly, equivalent, show, _is_polykey, poly_from_key
+
+    prog = ctx.prog
+    ctx.rule("C2", "outlier modelling is switched on for the data-point move iff it is for the SMC kernel (one test on the run's outlier probability); the kernel's outlier proposal probability is a constant in [0, 1)", 3)
+    ss = prog.fn("run.setup_samplers")
+    sk = prog.fn("run.setup_kernel")
+    exs = extract(prog, ss)
+    dps = [e for e in exs.events if e.name == "new:DataPointSampler"]
+    if len(dps) != 1:
+        raise AnalysisError("setup_samplers: expected one DataPointSampler(...) construction, found %d" % len(dps))
+    flag = dps[0].kwargs.get("outliers")
+    if flag is None and len(dps[0].args) > 2:
+        flag = dps[0].args[2]
+    # the kernel side: path-wise, the probability handed to the kernel class under the path's guards
+    exk = extract(prog, sk)
+    ks = [e for e in exk.events if "outlier_proposal_prob" in e.kwargs]
+    if not ks:
+        raise AnalysisError("setup_kernel: no kernel construction with outlier_proposal_prob=...")
+    op_name = {p: i for i, p in enumerate(ss.params)}.get("outlier_prob")
+    ok_name = {p: i for i, p in enumerate(sk.params)}.get("outlier_prob")
+    if op_name is None or ok_name is None:
+        raise AnalysisError("setup_samplers / setup_kernel: no outlier_prob parameter")
+    from ..termflow import subst
+
+    ren = {Poly.atom(("v", "P%d" % ok_name)).key(): Poly.atom(("v", "P%d" % op_name))}
+    from ..termflow import Valuation
+
+    bad = None
+    n = 0
+    for e in ks:
+        val = e.kwargs["outlier_proposal_prob"]
+        if not (isinstance(val, Poly) and val.is_const()):
+            raise AnalysisError("setup_kernel: outlier_proposal_prob is the non-constant %s" % show(val)[:80])
+        c = val.const_value()
+        ctx.check(0 <= c < 1, "C2", "setup_kernel: outlier proposal probability %s is in [0, 1)" % c, sk.where(e.node), "the kernel is built with outlier_proposal_prob = %s: the proposals' mixture weights (1 - q) / 2, (1 - q) and q are not probabilities" % c, construct=sk.qualname, stmt="outlier_proposal_prob constant")
+        n += 1
+        # under this path's guards the flag of the data-point move must be (c > 0)
+        guards = [subst(g, ren) if not isinstance(g, tuple) else __import__("pcstatic.termflow", fromlist=["subst_key"]).subst_key(g, ren) for g in e.full_guards]
+        on = c > 0
+        for t in range(16):
+            v = Valuation(t, salt="s0")
+            try:
+                if all(v.truth(g) for g in guards):
+                    f = flag if isinstance(flag, bool) else (v.truth(flag) if isinstance(flag, tuple) else bool(v.image(flag.key())))
+                    if f != on:
+                        bad = (e, c, f)
+            except (ValueError, OverflowError, ZeroDivisionError):
+                continue
+    ctx.check(bad is None and flag is not None, "C2", "DataPointSampler(outliers=...) is on exactly when the kernel's outlier proposal probability is positive", ss.where(dps[0].node),
+              "the data-point move is built with outliers=%s, but under the same outlier probability the kernel gets outlier_proposal_prob=%s: one of the two moves considers the outlier set and the other does not" % (show(flag)[:80] if flag is not None else "<default False>", bad[1] if bad else "?"), construct=ss.qualname, stmt="outliers switch")
+    ctx.analysed(ss, sk)
+
+
 def run(ctx):
     ctx.assume("numpy Generator.multinomial(1, p).argmax() draws an index with probabilities p; Generator.choice/shuffle are uniform")
     ctx.note("the subtree move's missing term for the size-weighted random choice of the subtree (authors' TODO) is not claimed")
@@ -359,6 +418,7 @@ def run(ctx):
     rule_P1(ctx)
     rule_P3(ctx)
     rule_C1(ctx)
+    rule_C2(ctx)
     # the Gibbs weights are log_p_one of *edited copies*: they are the target's values only if every edit of
     # a tree refreshes the cached likelihoods it invalidates (same rule objects as C06.M1 / M2)
     from ..effects import TreeFx
@@ -381,6 +441,12 @@ _G = "phyclone/mcmc/gibbs_mh.py"
 _P = "phyclone/mcmc/particle_gibbs.py"
 _R = "phyclone/run.py"
 SELFTEST = [
+    {"name": "C2-data-point-move-always-considers-outliers", "kind": "break", "rule": "C2", "file": _R, "old": "outliers=(outlier_prob > 0))", "new": "outliers=(outlier_prob >= 0))"},
+    {"name": "C2-data-point-move-outliers-always-on", "kind": "break", "rule": "C2", "file": _R, "old": "outliers=(outlier_prob > 0))", "new": "outliers=True)"},
+    {"name": "C2-kernel-proposes-outliers-without-outlier-model", "kind": "break", "rule": "C2", "file": _R, "old": "    if outlier_prob > 0:\n        outlier_proposal_prob = 0.1", "new": "    if outlier_prob >= 0:\n        outlier_proposal_prob = 0.1"},
+    {"name": "C2-outlier-proposal-probability-above-one", "kind": "break", "rule": "C2", "file": _R, "old": "        outlier_proposal_prob = 0.1\n", "new": "        outlier_proposal_prob = 1.1\n"},
+    {"name": "benign-C2-switch-in-a-local", "kind": "benign", "file": _R, "old": "    dp_sampler = DataPointSampler(tree_dist, rng, outliers=(outlier_prob > 0))", "new": "    model_outliers = 0 < outlier_prob\n    dp_sampler = DataPointSampler(tree_dist, rng, outliers=model_outliers)"},
+    {"name": "benign-C2-proposal-probability-0.2", "kind": "benign", "file": _R, "old": "        outlier_proposal_prob = 0.1\n", "new": "        outlier_proposal_prob = 0.2\n"},
     # ---- imported premises (density, tree editor)
     {"name": "T2-log_p_one-skips-outlier-prior-without-outliers", "kind": "break", "rule": ["T2", "T3"], "file": "phyclone/tree/distributions.py", "old": "                if data_point.outlier_prob != 0:\n                    if node == outlier_node_name:", "new": "                if data_point.outlier_prob != 0 and outlier_node_name in tree_node_data and len(tree_node_data[outlier_node_name]) > 0:\n                    if node == outlier_node_name:"},
     {"name": "TS-add_subtree-falsy-parent", "kind": "break", "rule": "TS", "file": "phyclone/tree/tree.py", "old": "        if parent is None:\n            parent = self._ROOT_NODE_NAME", "new": "        if not parent:\n            parent = self._ROOT_NODE_NAME"},
